@@ -56,3 +56,30 @@ TEXT = {
                      "trajectory length must equal the left Riemann sum over that sequence and lie within step x integral|x''| of the true arc length; zero/constant factories are probed at generated times, orders and hints.",
             "note": _BASE_NOTE + " Domain: |t| <= 1e6, dt >= 1e-4, <= 2e5 steps."},
 }
+
+TEXT.update({
+    "C07": {"technique": "property-based testing (rapidcheck) over an exhaustively enumerated configuration space (256 flag sets x 3 map pairs per order and dimension): finite differences (Richardson, self-calibrating slack) of the cost returned by the same call",
+            "level": "For every flag combination, every order, dimensions 1..4 and three time/spatial map pairs (incl. user maps with fewer or more unconstrained than physical coordinates) a generated problem, cost program (depending on p,v,a,j,s, global time, segment index), K, energy weight and decision vector are drawn; "
+                     "the gradient written by evaluate is compared, coordinate by coordinate and along generated directions, with central differences of the cost returned by evaluate itself.",
+            "note": _BASE_NOTE + " Cost functor families are FD-checked in --selftest so that a wrong hand-derived gradient cannot masquerade as a library defect. Sensitivity ~1e-6 of the gradient norm."},
+    "C08": {"technique": "property-based testing (rapidcheck): recording cost functor + reference model of decode, quadrature nodes, trapezoid weights and exact energy",
+            "level": "A recording running-cost functor logs every call; the log must contain exactly the documented nodes with the right segment index, local and global time and the trajectory's derivatives (long-double reference); the returned cost must equal the documented decomposition computed independently; "
+                     "two closed-form integrands pin the trapezoid weights for every K; the two-cost overload must equal the three-cost one bitwise.",
+            "note": _BASE_NOTE + " Decode of the decision vector is recomputed from the documented layout (also on workspaces previously used for other problems)."},
+    "C09": {"technique": "exhaustive enumeration of the configuration space (27648 configurations) with generated data per configuration + stateful property-based testing of reconfiguration histories, against a reference model of the documented layout",
+            "level": "Every flag set x order x N<=6 x dimension<=3 x {default maps, user maps with per-point unconstrained dimension != DIM} is checked on every run: reported dimension, every slot of the initial guess, and the spline exposed after evaluating the initial guess and a vector perturbed in every slot (bitwise against the model's decode). "
+                     "Histories of reconfiguration (flags, maps, new initial state) are interpreted against the same model.",
+            "note": _BASE_NOTE + " Maps are user code and are used by the model as given."},
+    "C10": {"technique": "stateful property-based testing (rapidcheck): reused object / workspace vs freshly constructed one, bitwise",
+            "level": "Generated histories of updates (both overloads, growing and shrinking N incl. 1 and 2) interleaved with every kind of query on one long-lived spline object, and of evaluations through one reused optimizer workspace across different optimizers, sizes and flags; every answer must be bit-identical to that of a freshly constructed object, and repeated read-only queries must repeat.",
+            "note": _BASE_NOTE + " Bitwise comparison is sound because both sides execute the same code on the same inputs in a build without -march=native/-ffast-math; it cannot see an error common to both (C01..C08 cover that)."},
+    "C13": {"technique": "property-based testing (rapidcheck): differential D-dimensional spline vs D one-dimensional splines; metamorphic coordinate permutation",
+            "level": "For D = 2..10 (septic D<=3 and D>3 are different code) coefficients, evaluations, propagated and energy gradients are compared coordinate by coordinate with the one-dimensional splines of the columns, energy and duration gradients with the sums over coordinates, and everything again under a generated coordinate permutation.",
+            "note": _BASE_NOTE},
+    "C14": {"technique": "property-based testing (rapidcheck): metamorphic relations (exact for power-of-two factors and exactly representable shifts, tolerance otherwise)",
+            "level": "Time shift, translation, data scaling, duration scaling and time reversal are applied to generated well-scaled problems; power-of-two scalings, start-time shifts and translations of exactly representable data must hold bitwise for coefficients, energy and gradients; reversal is checked for every derivative order at knots and interior points and for mirrored gradients.",
+            "note": _BASE_NOTE},
+    "C15": {"technique": "stateful property-based testing (rapidcheck) with stateful, address-recording user map types under ASan; copy vs freshly configured optimizer (bitwise)",
+            "level": "Generated sequences of construction, configuration, evaluation, copy-construction (lvalue/rvalue), assignment (plain, temporary, chained, self, over an optimizer owning a workspace), source mutation and destruction over heap-allocated optimizers; after every step every optimizer must evaluate bitwise like a freshly configured equivalent, call only its own default maps or the user's maps, and expose its own spline object.",
+            "note": _BASE_NOTE + " Default maps are instantiated as stateful types, because a stateless map (the bundled ones) would hide sharing."},
+})
